@@ -123,7 +123,8 @@ ARGS = [
   ("ctl0", ("output", R.OFPP_CONTROLLER, 0)), ("ctlmax", ("output", R.OFPP_CONTROLLER, 0xffff)),
   ("enq2", ("enqueue", 2, 0)),
 ]
-LABELS = dict(ALPHA + ARGS)
+BUF_MAX = 64                # max_len of the output:CONTROLLER that creates a buffer in the 'buffered' deliveries
+LABELS = dict(ALPHA + ARGS + [("ctl64", ("output", R.OFPP_CONTROLLER, BUF_MAX))])
 OUT_LABELS = tuple(l for l, a in ALPHA + ARGS if a[0] in ("output", "enqueue"))
 
 
@@ -160,6 +161,7 @@ class Obs (object):
     self.raised = None      # exception that escaped rx_packet / was caught by the switch's read loop
     self.garbled = False
     self.stats = None       # port_no -> counters dict
+    self.stage1_failed = False
     self.calls = 0
 
 
@@ -303,12 +305,12 @@ def compare (exp, obs):
         # name the region of the expected frame where the switch's idea of the frame ends / what lies beyond it
         sub = "total_len:%s" % (R.first_diff_layer(f, f[:p["total_len"]]) if p["total_len"] < len(f) else "longer")
       if sub in ("data", "data-length"):
-        recs.append(dict(clause="bytes", port=None, layers=R.first_diff_layer(want, p["data"], f), label=lab,
+        recs.append(dict(clause="bytes", port=None, index=i, layers=R.first_diff_layer(want, p["data"], f), label=lab,
                          what="packet-in %d (from %s) carries %s, expected %s%s" % (i, lab, p["data"].hex(), want.hex(),
                               " (the first %d bytes of the frame)" % mx if len(want) < len(f) else "")))
         break
       if sub:
-        recs.append(dict(clause="packet-in", sub=sub, label=lab,
+        recs.append(dict(clause="packet-in", sub=sub, label=lab, index=i,
                          what="packet-in %d (from %s): %s wrong: reason %d in_port %d total_len %d buffer %#x data %s; "
                               "expected reason %d in_port %d frame %s max_len %d"
                               % (i, lab, sub, p["reason"], p["in_port"], p["total_len"], p["buffer_id"], p["data"].hex(),
@@ -348,6 +350,63 @@ LAST_OBS = [None]           # observation of the most recent action case (for re
 T_FLOW = lambda xid: W.flow_mod(xid, W.match_fields(in_port=IN, dl_dst=MAC_DST), W.OFPFC_ADD, W.a_output(TPORT))
 
 
+# 'buffered' deliveries: (how the buffer is created, how it is released).  The frame first reaches the controller
+# (output:CONTROLLER action of a flow entry / of a packet-out carrying the frame / table miss) and is buffered; the
+# action list under test then arrives in a packet-out or flow-mod that names the buffer id.
+BUF_MODES = {
+  "buf-ctl":     ("flow", "pout"),      # flow [output:CONTROLLER] hit by the frame; packet-out(buffer_id, list)
+  "buf-miss":    ("miss", "pout"),      # table miss; packet-out(buffer_id, list)
+  "buf-ctl-fm":  ("flow", "fmod"),      # flow [output:CONTROLLER]; flow-mod(buffer_id, list)
+  "buf-miss-fm": ("miss", "fmod"),
+  "buf-po":      ("pout", "pout"),      # packet-out carrying the frame with [output:CONTROLLER]; packet-out(buffer_id, list)
+  "buf-rwctl":   ("rwflow", "pout"),    # flow [set_vlan_vid, output:CONTROLLER, set_dl_dst]: the buffer holds the frame
+}                                       # as it was at the output:CONTROLLER
+RW_CREATE = ("vid", "ctl64", "dl_dst")
+
+
+BEFORE_RELEASE = "[before the buffer was released] "     # marks violations of the first packet-in of a buffered delivery
+
+
+def buffered_expectation (frame, mode, labels):
+  """Reference outcome of a buffered delivery: the first packet-in, then the action list applied - with the ORIGINAL
+  ingress port - to the frame as it was when it was buffered."""
+  create, release = BUF_MODES[mode]
+  bframe = frame
+  if create == "miss":
+    pin = (W.OFPR_NO_MATCH, IN, frame, MISS, "table-miss")
+  elif create == "rwflow":
+    bframe = R.rewrite(frame, LABELS["vid"])
+    pin = (W.OFPR_ACTION, IN, bframe, BUF_MAX, "ctl64")
+  else:
+    pin = (W.OFPR_ACTION, IN, frame, BUF_MAX, "ctl64")
+  exp = expect_actions(bframe, labels, IN, PORTS0)
+  exp.pins.insert(0, pin)
+  exp.rx = {} if create == "pout" else {IN: set([(1, len(frame))])}
+  return exp, bframe
+
+
+def deliver_buffered (sw, frame, mode, labels):
+  """Returns None or a (key suffix, what) describing why the action list could not be delivered."""
+  create, release = BUF_MODES[mode]
+  obs = sw.obs
+  if create in ("flow", "rwflow"):
+    sw.feed(W.flow_mod(sw.nxid(), W.match_fields(in_port=IN), W.OFPFC_ADD, encode(("ctl64",) if create == "flow" else RW_CREATE)))
+  if create == "pout":
+    sw.feed(W.packet_out(sw.nxid(), encode(("ctl64",)), frame, in_port=IN))
+  elif not (obs.errors or obs.raised):
+    sw.rx(frame, IN)
+  if obs.raised is not None: return None
+  if len(obs.pins) != 1 or obs.pins[0]["buffer_id"] == W.NO_BUFFER or obs.errors:
+    return ("buffered:no-buffer", "the frame did not reach the controller as exactly one buffered packet-in (%d packet-ins, buffer ids %r, errors %r)"
+            % (len(obs.pins), [p["buffer_id"] for p in obs.pins], [(e["etype"], e["code"]) for e in obs.errors]))
+  bid = obs.pins[0]["buffer_id"]
+  if release == "pout":
+    sw.feed(W.packet_out(sw.nxid(), encode(labels), b"", buffer_id=bid, in_port=IN))
+  else:
+    sw.feed(W.flow_mod(sw.nxid(), W.match_fields(in_port=TPORT, dl_type=0x9999), W.OFPFC_ADD, encode(labels), buffer_id=bid))
+  return None
+
+
 def run_actions_case (frames, fname, mode, labels):
   """Execute one case on a fresh switch.  Returns (violations [(key, what)], observation summary, #calls)."""
   frame = frames[fname]
@@ -356,7 +415,11 @@ def run_actions_case (frames, fname, mode, labels):
   wire = encode(labels)
   in_port = R.OFPP_NONE if mode == "pout-none" else IN
   pre = []
-  if mode == "flow":
+  if mode in BUF_MODES:
+    r = deliver_buffered(sw, frame, mode, labels)
+    if r: pre.append(r)
+    exp, bframe = buffered_expectation(frame, mode, labels)
+  elif mode == "flow":
     sw.feed(W.flow_mod(sw.nxid(), W.match_fields(in_port=IN), W.OFPFC_ADD, wire))
     if obs.errors or obs.raised:
       pre.append(("flow-mod-refused", "flow-mod carrying [%s] was refused / failed: %r %r"
@@ -366,13 +429,14 @@ def run_actions_case (frames, fname, mode, labels):
   else:
     sw.feed(T_FLOW(sw.nxid()))
     sw.feed(W.packet_out(sw.nxid(), wire, frame, in_port=in_port))
-  exp = expect_actions(frame, labels, in_port, PORTS0)
-  has_table = "table" in labels
-  if mode == "flow": exp.rx = {IN: set([(1, len(frame))])}
-  elif not has_table: exp.rx = {}
+  if mode not in BUF_MODES:
+    exp = expect_actions(frame, labels, in_port, PORTS0)
+    has_table = "table" in labels
+    if mode == "flow": exp.rx = {IN: set([(1, len(frame))])}
+    elif not has_table: exp.rx = {}
   bad = []
   if pre:
-    bad = [("%s:%s" % (PID, pre[0][0]), pre[0][1])]
+    bad = [("%s:%s" % (PID, pre[0][0]), "frame %s, [%s] as %s: %s" % (fname, ",".join(labels), mode, pre[0][1]))]
   elif obs.raised is not None:
     bad = [("%s:raises:%s" % (PID, site_of(obs.raised)),
             "%s: %s while applying [%s] (%s) to frame %s"
@@ -380,6 +444,8 @@ def run_actions_case (frames, fname, mode, labels):
   else:
     raised_before = obs.raised
     recs = compare(exp, obs)
+    # buffered deliveries: did the frame already reach the controller wrongly, before the buffer was released?
+    obs.stage1_failed = mode in BUF_MODES and any(r.get("index") == 0 for r in recs)
     if obs.garbled: recs.append(dict(clause="wire", what="switch wrote bytes that do not frame as OpenFlow messages"))
     if obs.errors:
       recs.append(dict(clause="error-reply", code="%d.%d" % (obs.errors[0]["etype"], obs.errors[0]["code"]),
@@ -410,7 +476,8 @@ def run_actions_case (frames, fname, mode, labels):
       # frames) cannot explain a violation on ordinary frames
       fam = "first-fragment" if "frag-first" in fname else ("padded" if fname.endswith("-pad") else "")
       if fam: k += ":" + fam
-      bad.append(("%s:%s" % (PID, k), "frame %s, [%s] as %s: %s" % (fname, ",".join(labels), mode, r["what"])))
+      stage = BEFORE_RELEASE if (mode in BUF_MODES and r.get("index") == 0) else ""
+      bad.append(("%s:%s" % (PID, k), "frame %s, [%s] as %s: %s%s" % (fname, ",".join(labels), mode, stage, r["what"])))
   summary = (tuple((p, digest(f)) for p, f in obs.out),
              tuple((p["reason"], p["in_port"], p["total_len"], digest(p["data"])) for p in obs.pins))
   LAST_OBS[0] = obs
@@ -430,9 +497,19 @@ def minimise (frames, fname, mode, labels, cache):
     changed = False
     for i in range(len(cur)):
       cand = cur[:i] + cur[i+1:]
+      if mode in BUF_MODES and not any(l in OUT_LABELS for l in cand): continue    # outside the enumerated space
       if failing(cand):
         cur = cand; changed = True; break
   return cur, failing(cur)
+
+
+def buffered_key (key):
+  """C12:ports:<outputs>:<dir>:<role>... -> C12:buffered:ports:<dir>:<role>...; other clauses: C12:buffered:<rest>."""
+  parts = key.split(":")
+  if parts[-1] in ("padded", "first-fragment"): parts = parts[:-1]
+  if len(parts) > 2 and parts[1] == "ports": parts = parts[:2] + parts[3:]
+  if parts[1] == "raises": return key
+  return ":".join([parts[0], "buffered"] + parts[1:])
 
 
 def action_lists (first, maxlen, mode):
@@ -481,6 +558,7 @@ def _work_actions (item):
   else: lists = argument_lists(mode)
   for labels in lists:
     if fname in L2_ONLY and any(LABELS[l][0] in L34_REWRITES for l in labels): continue
+    if mode in BUF_MODES and not any(l in OUT_LABELS for l in labels): continue     # releasing a buffer into nothing
     bad, summary, calls = run_actions_case(frames, fname, mode, labels)
     rep.evaluations += 1
     rep.transitions += calls
@@ -489,6 +567,14 @@ def _work_actions (item):
       if not any(":raises:" in k for k, w in bad) and len(labels) > 1:
         mlabels, mbad = minimise(frames, fname, mode, labels, cache)
         if mbad: labels, bad = mlabels, mbad
+      if mode in BUF_MODES:
+        # a violation of the release step that the same list does not show when the packet-out carries the frame itself
+        # is specific to the buffer path: it gets its own key (without the output kind and frame family, which only
+        # say how it became visible)
+        ck = (fname, "pout", tuple(labels))
+        if ck not in cache: cache[ck] = run_actions_case(frames, fname, "pout", tuple(labels))[0]
+        plain = set(k for k, w in cache[ck])
+        bad = [(k if (k in plain or BEFORE_RELEASE in w) else buffered_key(k), w) for k, w in bad]
       for k, what in bad:
         rep.violation(k, what, dict(kind="actions", frame=fname, mode=mode, actions=list(labels)))
     elif rep.evaluations % 1500 == 7:
@@ -736,6 +822,16 @@ def run (cfg):
       for mode in ("flow", "pout"):
         items.append(("long", f, mode, None, 0))
         items.append(("args", f, mode, None, 0))
+    # buffered deliveries (lists with at least one output)
+    for f in MAIN_FRAMES + EXTRA_FRAMES:
+      main = f in MAIN_FRAMES
+      for first in firsts[1:]:
+        items.append(("lists", f, "buf-ctl", first, L_main if (main or cfg.quick) else L_extra))
+        for mode in ("buf-miss", "buf-ctl-fm", "buf-miss-fm", "buf-po", "buf-rwctl"):
+          items.append(("lists", f, mode, first, L_none))
+      for mode in sorted(BUF_MODES):
+        items.append(("long", f, mode, None, 0))
+        items.append(("args", f, mode, None, 0))
   allc, small = six_configs(), small_configs()
   if only in (None, "ports"):
     for i in allc:
@@ -750,16 +846,22 @@ def run (cfg):
   # big items first so the pool drains evenly
   items.sort(key=lambda it: (0 if it[0] == "lists" and it[3] is not None else 1, repr(it)))
   n_alpha = len(ALPHA)
+  BUF_RULE = ("flow-created buffer + packet-out length <=%d for %s frames; miss-created buffer, flow-mod release, "
+              "packet-out-created and rewrite-before-buffer variants length <=%d, all frames"
+              % (L_main, "all" if cfg.quick else "the main (<=%d extra)" % L_extra, L_none))
   rep.rule = ("A: every action list of length <=%d over %d actions (%s) x frames %s, delivered as a flow entry hit by the frame on "
               "port 1 (TABLE excluded: only valid in packet-out) and as a packet-out with in_port 1; length <=%d with in_port NONE; "
-              "length <=%d for frames %s; %d boundary-argument lists and %d fixed length-5/6 lists per frame and delivery. "
+              "length <=%d for frames %s; %d boundary-argument lists and %d fixed length-5/6 lists per frame and delivery; "
+              "buffered deliveries (lists with >=1 output; the frame first reaches the controller through a flow entry's "
+              "output:CONTROLLER / a table miss / a packet-out's output:CONTROLLER / a flow [set_vlan_vid, output:CONTROLLER, "
+              "set_dl_dst], the list then arrives in a packet-out or flow-mod naming the buffer id): %s. "
               "B: ingress config x egress config over all 2^6 combinations of PORT_DOWN/NO_RECV/NO_RECV_STP/NO_FLOOD/NO_FWD/NO_PACKET_IN "
               "(%s) set by port-mod x output kind %s x delivery x (ordinary frame then 802.1D frame). "
               "C: port-mod transitions a->b (%s) with full and changed-bits masks, read back via features reply. "
               "One fresh switch per case; cases are distinct as (frame, delivery, action list) / (configs, kind, delivery); "
               "distinct outcomes = distinct (case class, emitted (port, frame) sequence, packet-ins, verdict)"
               % (L_main, n_alpha, ",".join(l for l, a in ALPHA), ",".join(MAIN_FRAMES), L_none, L_extra, ",".join(EXTRA_FRAMES),
-                 len(argument_lists("pout")), len(fixed_long_lists("pout")),
+                 len(argument_lists("pout")), len(fixed_long_lists("pout")), BUF_RULE,
                  "pairs with at least one side in {none, one bit, all bits}" if cfg.quick else "full 64x64 product",
                  ",".join(PORT_KINDS), "64 x 8" if cfg.quick else "64 x 64"))
   rep.bound = dict(list_length=L_main, list_length_extra_frames=L_extra, list_length_in_port_none=L_none, alphabet=n_alpha,
@@ -769,6 +871,7 @@ def run (cfg):
     "enqueue on a switch without queues behaves as output to the named port (what the switch documents)",
     "OFPP_TABLE is exercised in packet-outs only, against one table flow without rewrites; rx counters are not asserted for lists containing it",
     "relative order of emissions is compared per port, not across ports",
+    "a buffered frame is released with the ingress port it arrived on; the packet-out releasing it names that port as in_port",
     "IP fragments are combined with link-layer rewrites and outputs only",
     "unspecified and therefore not asserted: acceptance of frames arriving on a PORT_DOWN port; whether NO_PACKET_IN silences output:CONTROLLER; "
     "whether frames refused by NO_RECV/NO_RECV_STP count as received",
@@ -794,9 +897,13 @@ def replay (cfg, data):
     bad, summary, calls = run_actions_case(frames, data["frame"], data["mode"], labels)
     frame = frames[data["frame"]]
     in_port = R.OFPP_NONE if data["mode"] == "pout-none" else IN
-    exp = expect_actions(frame, labels, in_port, PORTS0)
+    if data["mode"] in BUF_MODES: exp = buffered_expectation(frame, data["mode"], labels)[0]
+    else: exp = expect_actions(frame, labels, in_port, PORTS0)
     lines = ["frame %s = %s" % (data["frame"], frame.hex()),
-             "actions [%s] delivered as %s" % (",".join(labels), data["mode"]),
+             "actions [%s] delivered as %s%s" % (",".join(labels), data["mode"],
+                " (buffer created by %s, released by %s naming the buffer id; keys below are the plain ones, the run adds "
+                "'buffered' when a packet-out carrying the frame itself is handled correctly)" % BUF_MODES[data["mode"]]
+                if data["mode"] in BUF_MODES else ""),
              "action bytes = %s" % encode(labels).hex(),
              "expected emissions: %r" % dict((p, [f.hex() for f, l in v]) for p, v in exp.per_port.items() if v),
              "expected packet-ins (reason, in_port, frame, max_len): %r" % [(r, i, f.hex(), m) for r, i, f, m, l in exp.pins]]
